@@ -159,6 +159,16 @@ Fixpoint run_obs (st : state) (h : list action) : list obs :=
   | a :: r => let '(st', o) := step st a in o :: run_obs st' r
   end.
 
+(* cluster mode (the node has a ClusterName): numbercache answers Has = false and ignores CheckAndSet, so the
+   process behaves as if the cache were emptied after every step *)
+Definition clear_cache (st : state) : state :=
+  {| cache := []; ts_rows := ts_rows st; acked := acked st; pending := pending st |}.
+Fixpoint run_dist (st : state) (h : list action) : state :=
+  match h with
+  | [] => st
+  | a :: r => run_dist (clear_cache (fst (step st a))) r
+  end.
+
 (* ------------------------------------------------------------------ the property, as predicates on a state *)
 Definition indexed (rows : list row) (s : sample) : bool :=
   let '(fp, d, _) := s in existsb (fun r => let '(rd, rfp, _) := r in (rd =? d) && (rfp =? fp)) rows.
